@@ -239,15 +239,20 @@ def c10(run):
         run.require(P.has(fn), 'anchor function %s() of C10 not found' % fn)
     r_ownpdu.run(run, P, only=set(REPLY_FUNCS))
     r_reply.run(run, P)
+    from rules import r_suppress
+    r_suppress.run(run, P)
     run.min_instances('R-OWN-PDU', 5)
     run.min_instances('R-REPLY-ONCE', 5)
     run.assumptions = ASSUME_COMMON + ["the reply code table over the product of request features is NOT decided (a rule pinning the resp = 4.xx assignments would be a frozen "
-                                       "fragment firing on behaviour-preserving edits); handler selection and No-Response suppression are NOT decided"]
+                                       "fragment firing on behaviour-preserving edits); handler selection is NOT decided; of the suppression rules only the internal agreement of "
+                                       "the decision table (flag <-> class, No-Response bit <-> class) is decided, not when suppression applies"]
     return run.finish(
         "At most one direct reply per request datagram, decided structurally: the response object of handle_request and the error replies of "
         "coap_dispatch / check_token_size are linear (created once, sent or deleted exactly once on every path, never used after being handed to "
         "coap_send_internal; R-OWN-PDU), and no path of coap_dispatch / handle_request passes two emission points other than the Empty-ACK-then-"
-        "response pattern (R-REPLY-ONCE).")
+        "response pattern (R-REPLY-ONCE). Suppression table: every per-resource multicast suppression flag is paired with the response class its public "
+        "name states, on the arm its polarity (ENA/DIS) demands, and leads to a drop; the flags are distinct bits; the No-Response bitmap is indexed "
+        "with class-1 (R-SUPPRESS-TAB).")
 
 
 def c09(run):
